@@ -251,6 +251,37 @@ func (r *run) generate() {
 		}
 	}
 
+	// ---- I. an entry's addresses / metadata cleared or replaced by the advertisement's own, for
+	// the main provider's entry and another one, starting from entries that are empty, that
+	// carry the advertisement's own values, and that carry values of their own
+	for t := 0; t < nTypes; t++ {
+		signer := typeBase(t)
+		for _, provider := range []int{signer, (signer + 3) % len(pool.Ids)} {
+			for shape := 0; shape < 3; shape++ { // 0: empty entry values, 1: the ad's own, 2: values of their own
+				for mainPos := 0; mainPos < 2; mainPos++ {
+					for _, k := range []string{"ep-clear-md", "ep-clear-addrs", "ep-copy-md", "ep-copy-addrs"} {
+						for ep := 0; ep < 2; ep++ {
+							for _, codec := range []string{"", []string{"dag-json", "dag-cbor"}[(t+ep+shape)%2]} {
+								sc := withEps(baseScenario(seed(), signer, provider), 2, mainPos, (shape+ep)%2 == 0)
+								for i := range sc.Eps {
+									switch shape {
+									case 0:
+										sc.Eps[i].NAddrs, sc.Eps[i].MdLen = 0, 0
+									case 1:
+										sc.Eps[i].LikeAd = true
+									}
+								}
+								sc.Codec = codec
+								sc.Mut = mutation{Kind: k, Ep: ep, Index: t + ep}
+								r.emit(sc)
+							}
+						}
+					}
+				}
+			}
+		}
+	}
+
 	// ---- H. IsRm x extended-provider shapes, as a full cross product: a signed advertisement
 	// (removal or not; without ExtendedProvider, or with an empty one) gets an entry list
 	// attached afterwards -- unsigned, genuinely signed, one foreign-sealed, main left out --
@@ -360,7 +391,7 @@ func firstOtherOfType(a, b, c, t int) int {
 	return 0
 }
 
-var allMuts = []string{"", "", "", "ep-attach", "ep-attach", "respell", "ep-respell", "prev", "entries", "provider", "addr", "metadata", "rm", "ctx", "override", "ep-id", "ep-addr", "ep-md",
+var allMuts = []string{"", "", "", "ep-clear-md", "ep-clear-addrs", "ep-copy-md", "ep-copy-addrs", "ep-attach", "ep-attach", "respell", "ep-respell", "prev", "entries", "provider", "addr", "metadata", "rm", "ctx", "override", "ep-id", "ep-addr", "ep-md",
 	"ep-drop", "ep-dup", "ep-swap-sigs", "ext-remove", "shift", "env-key", "env-payload", "env-sig", "env-type", "env-byte",
 	"sig-empty", "sig-garbage", "sig-truncate", "sig-append", "resign-other", "ep-sig-as-ad-sig"}
 
@@ -386,6 +417,7 @@ func (r *run) randomScenario(rng *vlib.Rand) *scenario {
 			withEps(sc, n, rng.Intn(n), rng.Bool())
 			for i := range sc.Eps {
 				sc.Eps[i].NAddrs, sc.Eps[i].MdLen = rng.Intn(3), rng.Intn(12)
+				sc.Eps[i].LikeAd = rng.Intn(5) == 0
 				if rng.Intn(6) == 0 {
 					sc.Eps[i].Sealer = rng.Intn(len(pool.Ids))
 				}
@@ -411,7 +443,8 @@ func (r *run) randomScenario(rng *vlib.Rand) *scenario {
 			sc.Attach, sc.AttachOv = tmp.Eps, rng.Bool()
 		}
 		switch sc.Mut.Kind {
-		case "ep-id", "ep-addr", "ep-md", "ep-drop", "ep-dup", "ep-swap-sigs", "ep-sig-as-ad-sig", "ep-respell":
+		case "ep-id", "ep-addr", "ep-md", "ep-drop", "ep-dup", "ep-swap-sigs", "ep-sig-as-ad-sig", "ep-respell",
+			"ep-clear-md", "ep-clear-addrs", "ep-copy-md", "ep-copy-addrs":
 			if len(sc.Eps) == 0 {
 				continue
 			}
